@@ -12,6 +12,7 @@ namespace Pypyr.C03
 open Pypyr Pypyr.Flow Pypyr.C04 Pypyr.C05
 
 -- interpreter states can be compared (used by the concrete `example`s of Props/C03.lean)
+deriving instance DecidableEq for Escape
 deriving instance DecidableEq for St
 
 /-! ## `runStep`, opened up -/
@@ -50,25 +51,27 @@ theorem describe_none (d : StepDef) (s : St) (h : d.description = none) : descri
 
 /-- `Step.run_step` when the description notification raises nothing (`Quiet`): the decorator stack. -/
 theorem runStepDescribed_quiet (d : StepDef) (body : Body) (callee : CofCfg → Body) (fuel : Nat) (s : St)
-    (hq : describe d (setIn d s) = none) :
+    (hin : d.inBad = none) (hq : describe d (setIn d s) = none) :
     runStepDescribed d body callee fuel s = runStepWith d body callee fuel s := by
-  unfold runStepDescribed; rw [hq]
+  unfold runStepDescribed inFault; rw [hin, hq]
 
 /-- … and when formatting the description fails: that error, raised with the `in` arguments set; the
     module body never runs, no decorator is evaluated. -/
 theorem runStepDescribed_fails (d : StepDef) (body : Body) (callee : CofCfg → Body) (fuel : Nat) (s : St) (x : Exc)
-    (hq : describe d (setIn d s) = some x) :
+    (hin : d.inBad = none) (hq : describe d (setIn d s) = some x) :
     runStepDescribed d body callee fuel s = raiseExc (setIn d s) x := by
-  unfold runStepDescribed; rw [hq]
+  unfold runStepDescribed inFault; rw [hin, hq]
 
 /-- NEW HYPOTHESIS `hq` (since the model covers `description`): the step's description, if it has one,
     formats without error in the state with the `in` arguments set; `describe_none` discharges it for a
-    step without description. Without it `runStep` is `runStepDescribed` (`runStep_eq_described`). -/
+    step without description. NEW HYPOTHESIS `hin` (since the model covers an `in` that is no mapping):
+    `in` is a mapping, null or absent (`rfl` for every step written with `inArgs`). Without them `runStep`
+    is `runStepDescribed` (`runStep_eq_described`). -/
 theorem runStep_eq (fuel : Nat) (prog : Program) (pipe : String) (d : StepDef) (kind : StepKind) (s : St)
-    (hk : stepInit d = .ok kind) (hq : describe d (setIn d s) = none) :
+    (hk : stepInit d = .ok kind) (hq : describe d (setIn d s) = none) (hin : d.inBad = none := by rfl) :
     runStep (fuel + 1) prog pipe d s =
       runStepWith d (stepBody fuel prog kind) (groupsCallee fuel prog pipe) fuel s := by
-  rw [runStep_eq_described fuel prog pipe d kind s hk, runStepDescribed_quiet _ _ _ _ _ hq]
+  rw [runStep_eq_described fuel prog pipe d kind s hk, runStepDescribed_quiet _ _ _ _ _ hin hq]
 
 /-- no `while`, no `foreach`, no `retry`, `run` and `skip` at their defaults. -/
 structure Plain (d : StepDef) : Prop where
@@ -123,9 +126,13 @@ theorem cofStep_call_raises (v : Val) (hv : v ≠ .none)
   obtain ⟨cfg, c, hf, hi⟩ := hfmt s h
   obtain ⟨hk, ho⟩ := instructionFromVal_key _ _ _ _ hi
   refine ⟨c, ?_, hk, ho⟩
+  have hne : s.ctx.isEmpty = false := by
+    cases hc : s.ctx with
+    | nil => rw [hc] at h; simp [Ctx.get?] at h
+    | cons _ _ => rfl
   unfold cofStep
   rw [assertKeyHasValue_of_get s "call" _ v h hv]
-  simp only [hf, hi, if_true]
+  simp only [hne, hf, hi, if_true, Bool.false_eq_true, if_false]
 
 /-! ## jump -/
 
@@ -142,18 +149,18 @@ theorem runSteps_jump (prog : Program) (pipe : String) (pre post : List StepDef)
   exact seqRun_first_nonok _ pre post d fuel s s0 s1 _ hpre hlen hd (jump_ne_ok c)
 
 theorem runStepGroup_jump (fuel : Nat) (prog : Program) (pipe g : String) (raiseStop : Bool) (s s1 : St)
-    (c : CofCfg) (h : runSteps fuel prog pipe (groupSteps prog pipe g) s = (s1, .jump c)) :
+    (c : CofCfg) (h : runSteps fuel prog pipe (groupSteps prog pipe g) s = (s1, .jump c)) (hg0 : g ≠ "") :
     runStepGroup (fuel + 1) prog pipe g raiseStop s =
       runGroups fuel prog pipe c.groups c.success c.failure s1 := by
-  rw [runStepGroup_of_run fuel prog pipe g raiseStop s s1 _ h (by simp) (by simp)]
+  rw [runStepGroup_of_run fuel prog pipe g raiseStop s s1 _ h (by simp) (by simp) hg0]
 
 theorem runGroupList_jump (fuel : Nat) (prog : Program) (pipe g : String) (rest : List String) (s s1 : St)
-    (c : CofCfg) (h : runSteps fuel prog pipe (groupSteps prog pipe g) s = (s1, .jump c)) :
+    (c : CofCfg) (h : runSteps fuel prog pipe (groupSteps prog pipe g) s = (s1, .jump c)) (hg0 : g ≠ "") :
     runGroupList (fuel + 2) prog pipe (g :: rest) s =
       (match runGroups fuel prog pipe c.groups c.success c.failure s1 with
        | (s2, .ok) => runGroupList (fuel + 1) prog pipe rest s2
        | other => other) := by
-  rw [runGroupList_cons, runStepGroup_jump fuel prog pipe g false s s1 c h]
+  rw [runGroupList_cons, runStepGroup_jump fuel prog pipe g false s s1 c h hg0]
   rfl
 
 end Pypyr.C03
